@@ -119,6 +119,8 @@ def generate(rng, repo_root, config="A", opts=None):
                     ops.append(_draw_plain_op(rng, rk, k, ospec, fluids, grids))
                 continue
         kind = _weighted(rng, kinds, weights)
+        if k not in last_grid and kind in ("rf", "rfd", "interp", "repeat") and rng.random() < 0.75:
+            kind = rng.choice(["simA", "simB", "simC"])   # reads on a never-simulated object only test the typestate
         ops.append(_draw_plain_op(rng, kind, k, ospec, fluids, grids))
         if ops[-1]["op"] == "simulate":
             last_grid[k] = ops[-1]["grid"]
@@ -279,6 +281,7 @@ class Runner:
         self.log = []
         self.violations = []
         self.probes = {}
+        self.oracle_evals = {}
         self.faults_fired = {}
         self.transitions = set()
         self.steps_simulated = 0
@@ -290,6 +293,9 @@ class Runner:
     # ------------------------------------------------------------- helpers
     def probe(self, name, n=1):
         self.probes[name] = self.probes.get(name, 0) + n
+
+    def count(self, clause):
+        self.oracle_evals[clause] = self.oracle_evals.get(clause, 0) + 1
 
     def _fresh(self, k):
         """New fluid(s) from pristine specs, new reservoir from constructor args."""
@@ -499,6 +505,7 @@ class Runner:
                 live_interps[k] = []
             else:
                 for f_old, v_old in live_interps[k][-3:]:
+                    self.count("R-interp-stable")
                     try:
                         v_now = np.asarray(f_old(self.probe_t), dtype=float)
                         same = _arr_eq(v_now, v_old)[0]
@@ -536,6 +543,7 @@ class Runner:
                             self.probe("mixed_epoch_object")
                 elif out_f.ok:
                     # reference completed: the real object must have completed identically
+                    self.count("A-sim" if not ever_failed[k] else "B1-sim")
                     d = self._out_eq(out_r, out_f)
                     if d:
                         self.violate(i, "A-sim" if not ever_failed[k] else "B1-sim", op0, d,
@@ -584,10 +592,12 @@ class Runner:
                         fresh = self._fresh(k)
                         out_f, _ = self._call(fresh, op, None)
                         if not crashed_read:
+                            self.count("A-pristine")
                             d = self._out_eq(out_r, out_f)
                             if d:
                                 self.violate(i, "A-pristine", op0, d, {"real": out_r.brief(), "fresh": out_f.brief()})
                     else:
+                        self.count("B3-typestate")
                         if out_r.ok:
                             self.violate(i, "B3-typestate", op0, "ok-vs-exc",
                                          {"real": out_r.brief(), "note": "no simulate ever completed"})
@@ -607,6 +617,7 @@ class Runner:
                         cands[k] = new[:8]
                     else:
                         survivors, first_diff, first_f = [], None, None
+                        self.count("B2-between" if pending_fail[k] else ("A-read" if not ever_failed[k] else "B1-read"))
                         need_undo = len(cands[k]) > 1 or pending_fail[k]
                         for c in cands[k]:
                             saved = copy.deepcopy(c.__dict__) if need_undo else None
@@ -642,6 +653,7 @@ class Runner:
                         ab["cache_cur"] = True
             # repeat clause: same call, same arguments -> same result
             if is_repeat and last_out[k] is not None and not injected and prev_plain[k]:
+                self.count("R-repeat")
                 d = self._out_eq(out_r, last_out[k])
                 if d:
                     self.violate(i, "R-repeat", op0, d, {"first": last_out[k].brief(), "second": out_r.brief()})
@@ -801,13 +813,15 @@ def generate_from_rng(rng, repo_root, tier="thorough", opts=None):
 class SweepResult:
     def __init__(self, base, runs, violations):
         self.base, self.runs, self.violations = base, runs, violations
-        for name in ("probes", "faults_fired", "transitions", "ngrams", "steps_simulated", "sim_time", "solver_calls", "log"):
+        for name in ("probes", "oracle_evals", "faults_fired", "transitions", "ngrams", "steps_simulated", "sim_time", "solver_calls", "log"):
             setattr(self, name, getattr(base, name))
         for r in runs:
             for kx, v in r.faults_fired.items():
                 self.faults_fired[kx] = self.faults_fired.get(kx, 0) + v
             for kx, v in r.probes.items():
                 self.probes[kx] = self.probes.get(kx, 0) + v
+            for kx, v in r.oracle_evals.items():
+                self.oracle_evals[kx] = self.oracle_evals.get(kx, 0) + v
             self.transitions |= r.transitions
         self.probes["crash_points_swept"] = self.probes.get("crash_points_swept", 0) + len(runs)
 
@@ -846,7 +860,7 @@ import json  # noqa: E402
 
 
 def new_aggregate():
-    return {"runs": 0, "config": {}, "strict": 0, "ops": 0, "opkinds": {}, "faults_fired": {}, "probes": {},
+    return {"runs": 0, "config": {}, "strict": 0, "ops": 0, "opkinds": {}, "faults_fired": {}, "probes": {}, "oracle_evals": {},
             "transitions": set(), "ngrams": set(), "hist": set(), "hist_nontrivial": set(),
             "steps": 0, "sim_time": 0.0, "solver_calls": 0, "samples": [], "classes": {}, "violating_runs": 0}
 
@@ -868,6 +882,8 @@ def aggregate(agg, scn, res):
         agg["faults_fired"][kx] = agg["faults_fired"].get(kx, 0) + v
     for kx, v in res.probes.items():
         agg["probes"][kx] = agg["probes"].get(kx, 0) + v
+    for kx, v in res.oracle_evals.items():
+        agg["oracle_evals"][kx] = agg["oracle_evals"].get(kx, 0) + v
     agg["transitions"] |= res.transitions
     hk = history_key(scn)
     agg["hist"].add(hk)
@@ -888,7 +904,7 @@ def merge(a, b):
     for key in ("runs", "strict", "ops", "steps", "solver_calls", "violating_runs"):
         a[key] += b[key]
     a["sim_time"] += b["sim_time"]
-    for key in ("config", "opkinds", "faults_fired", "probes", "classes"):
+    for key in ("config", "opkinds", "faults_fired", "probes", "classes", "oracle_evals"):
         for kx, v in b[key].items():
             a[key][kx] = a[key].get(kx, 0) + v
     for key in ("transitions", "ngrams", "hist", "hist_nontrivial"):
@@ -1040,6 +1056,7 @@ def evidence(out, tier, seed, wall, wall_batch, cross, known_hits, violations, w
             "solver_calls_intercepted_in_fault_ops": agg["solver_calls"],
             "faults_fired": dict(sorted(agg["faults_fired"].items())),
             "probes": dict(sorted(agg["probes"].items())),
+            "oracle_evaluations_by_clause": dict(sorted(agg["oracle_evals"].items())),
             "runs_per_hour": int(runs / max(1e-9, wall_batch) * 3600),
             "seeds_per_hour": int(runs / max(1e-9, wall_batch) * 3600),
             "workers": workers,
